@@ -926,6 +926,15 @@ func c05Trees(c *Ctx) []eqNode {
 		}
 	}
 	trees = append(trees, eqNode{T: "stack", Kind: "AND"}, eqNode{T: "stack", Kind: "BASIC", Cap: 3})
+	// a Condition as the expression of a Condition (two and three deep), above a number, a text, a one-element
+	// stack, an operator-less Condition: every difference below counts, also those a rendering would hide
+	for _, bottom := range []eqNode{{T: "prim", V: 1, Kind: "int"}, {T: "prim", V: "1"}, {T: "stack", Kind: "AND", Kids: []eqNode{{T: "prim", V: "only"}}}, {T: "stack", Kind: "OR", Kids: []eqNode{{T: "prim", V: 7, Kind: "int"}, {T: "prim", V: "b"}}},
+		{T: "cond", Kw: "no-operator", Op: 0, Kids: []eqNode{{T: "prim", V: "v"}}}} {
+		inner := eqNode{T: "cond", Kw: "inner", Op: 2, Kids: []eqNode{bottom}}
+		outer := eqNode{T: "cond", Kw: "outer", Op: 1, Kids: []eqNode{inner}}
+		outer3 := eqNode{T: "cond", Kw: "top", Op: 3, Kids: []eqNode{outer}}
+		trees = append(trees, outer, outer3, eqNode{T: "stack", Kind: "AND", Kids: []eqNode{outer, {T: "prim", V: "x"}}}, eqNode{T: "stack", Kind: "LIST", Kids: []eqNode{{T: "prim", V: "y"}, outer3}})
+	}
 	// locking and the read-only flag (alone and together) on the root, on a nested stack, on a Condition's
 	// expression: neither has a say in what is equal, and comparing takes nothing it does not give back
 	for lock := 1; lock <= 3; lock++ {
